@@ -133,6 +133,12 @@ template <class V, class W>
 void use_swap2(V &v, W &w) {
   v.swap2(w);
 }
+// swap found by argument dependent lookup between two vectors with the same VectorImpl base (different inline capacity)
+template <class V, class W>
+void use_adl_swap(V &v, W &w) {
+  using std::swap;
+  swap(v, w);
+}
 // the SmallVector-from-vector stealing constructor
 template <class SV, class PlainV>
 void use_steal(PlainV &pv) {
